@@ -34,6 +34,7 @@ func TestVerifSim(t *testing.T) {
 			"(a fault fired OR a call timed out / was cancelled OR a frame was delivered in more than one chunk).",
 		Assumptions: []string{"testing/synctest fake clock and quiescence semantics (go1.26.8)",
 			"a delivery step never completes more than one frame, waking a blocked writer is a separate step, and at most one operation is started per step, so intra-step goroutine races in real code do not decide outcomes (explored interleavings are at simulator-event granularity)",
+			"one deliberate exception: the cancel+deliver action cancels a call and releases the rest of its own response frame inside one step (cancel first: the cancellation wins deterministically while Complete(id) still runs before the caller's Delete at GOMAXPROCS=1; deliver first: the Go runtime picks, and that call is logged by the neutral class ok|canceled). A deadline firing at the very instant of a delivery is not constructed",
 			"at most one operation at a time is inside a pool slot's dial (no concurrent waiters on one dial)",
 			"header faults are the malformed-header classes of the statement (magic, version, flags, reserved, kind, priority, oversize body); corruption that yields another valid header is out of scope",
 			"header round-trip is checked only for the headers this traffic produces (kinds data/notify/request/response, 4 priorities, 3 service ids, body lengths 0..MaxFrameBodyBytes)"},
